@@ -21,6 +21,8 @@ import NumqiProofs.ManifoldPlacement
 import NumqiProofs.ManifoldDiff
 import NumqiProofs.ManifoldVecDiff
 import NumqiProofs.ManifoldSoftmaxDiff
+import NumqiProofs.ManifoldPairDiff
+import NumqiProofs.ManifoldCayleyRank
 import Mathlib.LinearAlgebra.Complex.FiniteDimensional
 
 namespace Numqi.C02
@@ -160,6 +162,55 @@ theorem ball_full_rank (n : Nat) (x : EuclideanSpace ℝ (Fin n)) :
   split_ifs with h
   · exact fun a b hab => hab
   · exact ballD_injective h
+
+/-! ### complex branches of the vector charts (`ℂ^h ≅ ℝ^{2h}`) -/
+
+/-- the model's complex pairing `pairCx` is the injective `ℝ`-linear map `pairLin : ℝ^{2h} → ℂ^h` -/
+theorem pairCx_is_linear (h : Nat) (y : Nat → ℝ) (j : Fin h) : pairCx (K := ℂ) h y j.val = pairLin h (toE (h + h) y) j ∧ Function.Injective (pairLin h) :=
+  ⟨pairCx_eq_pairLin h y j, pairLin_injective h⟩
+/-- complex `to_ball`: injective differential (rank `2h`) at every `x ≠ 0` … -/
+theorem ball_complex_full_rank (h : Nat) {x : EuclideanSpace ℝ (Fin (h + h))} (hx : x ≠ 0) :
+    HasFDerivAt (fun y => pairCLM h (ballMap y)) ((pairCLM h).comp (ballD x)) x ∧ Function.Injective ((pairCLM h).comp (ballD x)) :=
+  ballComplex_hasFDerivAt h hx
+/-- … and at the origin -/
+theorem ball_complex_full_rank_zero (h : Nat) :
+    HasFDerivAt (fun y : EuclideanSpace ℝ (Fin (h + h)) => pairCLM h (ballMap y)) ((pairCLM h).comp (ContinuousLinearMap.id ℝ _)) 0 ∧
+      Function.Injective ((pairCLM h).comp (ContinuousLinearMap.id ℝ (EuclideanSpace ℝ (Fin (h + h))))) := ballComplex_hasFDerivAt_zero h
+/-- complex `to_sphere_quotient`: rank `2h - 1` at every `x ≠ 0` -/
+theorem sphere_complex_rank (h : Nat) {x : EuclideanSpace ℝ (Fin (h + h))} (hx : x ≠ 0) :
+    HasFDerivAt (fun y => pairCLM h (quotMap y)) ((pairCLM h).comp (quotD x)) x ∧
+      Module.finrank ℝ (LinearMap.range ((pairLin h) ∘ₗ (quotD x : EuclideanSpace ℝ (Fin (h + h)) →ₗ[ℝ] EuclideanSpace ℝ (Fin (h + h))))) + 1 = h + h :=
+  sphereComplex_rank h hx
+
+/-! ### one matrix chart completely: the real Cayley chart of SO(d) -/
+
+/-- the Cayley transform is differentiable wherever `1 + A` is invertible, `D cayley(A) δ = -2 (1+A)⁻¹ δ (1+A)⁻¹`, and this differential is injective -/
+theorem hasFDerivAt_cayley_everywhere {𝔸 : Type*} [NormedRing 𝔸] [NormedAlgebra ℝ 𝔸] [CompleteSpace 𝔸] (A : 𝔸) (u : 𝔸ˣ) (hu : (↑u : 𝔸) = 1 + A) :
+    HasFDerivAt (cayleyMap : 𝔸 → 𝔸) (cayleyD u) A ∧ Function.Injective (cayleyD u : 𝔸 → 𝔸) ∧ ∀ δ, cayleyD u δ = (-2 : ℝ) • ((↑u⁻¹ : 𝔸) * δ * ↑u⁻¹) :=
+  ⟨hasFDerivAt_cayley A u hu, cayleyD_injective u, cayleyD_apply u⟩
+
+/-- the placement `θ ↦ generator` of the real chart is `ℝ`-linear (`genLin`) and the model's order-1 chart is `cayleyMap ∘ genLin` -/
+theorem soCayley_real_eq (inv : NMat ℂ → NMat ℂ) (hinv : ∀ P, IsUnit (toM dim dim P).det → toM dim dim (inv P) * toM dim dim P = 1)
+    (S : Scalars ℂ) (hS : S.Valid dim) (hd : 1 ≤ dim) (θ : Fin (dim * (dim - 1) / 2) → ℝ) :
+    toM dim dim (soCayley inv S dim 1 true (extZero θ)) = cayleyMap (genLin S hd θ) :=
+  soCayley_eq_cayleyMap inv hinv S hS hd true (extZero θ)
+
+/-- **the real Cayley chart of SO(d), order 1, has rank `d(d-1)/2` at EVERY θ** (differentiable on all of `ℝ^{d(d-1)/2}` with injective differential):
+this row of the rank table is a theorem, not a probe -/
+theorem soCayley_real_full_rank (S : Scalars ℂ) (hS : S.Valid dim) (hd : 1 ≤ dim) (θ : Fin (dim * (dim - 1) / 2) → ℝ) :
+    open scoped Matrix.Norms.Operator in
+    ∃ D : (Fin (dim * (dim - 1) / 2) → ℝ) →L[ℝ] Matrix (Fin dim) (Fin dim) ℂ,
+      HasFDerivAt (fun t => cayleyMap (LinearMap.toContinuousLinearMap (genLin S hd) t)) D θ ∧ Function.Injective D :=
+  soCayley_real_full_rank' S hS hd θ
+
+/-- order 2 (`C²`, the default `cayley_order`): differential `δC·C + C·δC`; injective — full rank — wherever the Sylvester operator
+`X ↦ X C + C X` is injective, i.e. `C = cayley(A)` has no pair of eigenvalues `λ, -λ` (an open dense condition; at θ = 0, `C = 1`, it holds) -/
+theorem soCayley_order2_full_rank {𝔸 : Type*} [NormedRing 𝔸] [NormedAlgebra ℝ 𝔸] [CompleteSpace 𝔸]
+    {E : Type*} [NormedAddCommGroup E] [NormedSpace ℝ E] (P : E →L[ℝ] 𝔸) (hP : Function.Injective P)
+    (θ : E) (u : 𝔸ˣ) (hu : (↑u : 𝔸) = 1 + P θ) (hSyl : ∀ X : 𝔸, X * cayleyMap (P θ) + cayleyMap (P θ) * X = 0 → X = 0) :
+    ∃ D : E →L[ℝ] 𝔸, HasFDerivAt (fun t => cayleyMap (P t) * cayleyMap (P t)) D θ ∧ Function.Injective D
+      ∧ ∀ δ, D δ = cayleyD u (P δ) * cayleyMap (P θ) + cayleyMap (P θ) * cayleyD u (P δ) :=
+  cayley_sq_chart P hP θ u hu hSyl
 
 /-! ### the gap, stated -/
 
